@@ -223,15 +223,6 @@ theorem lookup_append (xs ys : List (String × Val)) (k : String) :
 
 /-! ### The keys of a freshly constructed `__dict__` -/
 
-def ctorKeys (cd : ClassDesc) (names : List String) : List String :=
-  (if cd.alias then ["aliases", "preferred_names"] else []) ++
-  (if cd.base = .linker then ["submodels", "name", "_LAGS", "_LEADS"] else []) ++
-  ["span", "index", "_strict", "_attributes"] ++
-  (if cd.base = .container then []
-   else ["dtype", "_status", "_iterations", "names"] ++ names.map (fun x => "_" ++ x) ++ ["lags", "leads"]) ++
-  (if cd.base = .container then [] else ["endogenous", "check"] ++ (if cd.base = .model then ["engine"] else [])) ++
-  (if cd.tracer then ["_trace"] else [])
-
 theorem thread_snd (f : Heap → Heap × List (String × Val)) (acc : Heap × List (String × Val)) :
     (thread f acc).2 = acc.2 ++ (f acc.1).2 := rfl
 
